@@ -404,7 +404,13 @@ theorem facts_guard :
     Gen.Facts.c13SortCallsSort = some true ∧ Gen.Facts.c13SortReturns = some 1 ∧
     Gen.Facts.c13LessByAddr = some true ∧ Gen.Facts.c13ContainsCmp = .le ∧
     Gen.Facts.c13ContainsShape = some true ∧ Gen.Facts.c13AppendMasksTo6 = some true ∧
-    Gen.Facts.c13AppendV4BitsOffset = some 96 := by decide
+    Gen.Facts.c13AppendV4BitsOffset = some 96 ∧
+    -- ip_set plugins that reference other sets (Props/C13Sets.lean): `p := &IPSet{}`, the member slice is only
+    -- ever written by `p.mg = append(p.mg, <one value>)` (own list, then one per referenced set), and handed out uncopied
+    Gen.Facts.c13IPSetFresh = some true ∧ Gen.Facts.c13IPSetMgSelfAppends = some 2 ∧
+    Gen.Facts.c13IPSetMgOtherWrites = some 0 ∧ Gen.Facts.c13IPSetOwnListFirst = some true ∧
+    Gen.Facts.c13IPSetRangesSets = some true ∧ Gen.Facts.c13GetIPMatcherShape = some true ∧
+    Gen.Facts.c13GroupMatchShape = some true := by decide
 
 /-! Non-vacuity. 10.0.0.0/8 ⊇ 10.1.0.0/16, 10.0.0.0/8 twice, adjacent 11.0.0.0/8:
 intervals written directly. -/
